@@ -28,6 +28,8 @@ HasEntry(W, p) == \E e \in Entries(W) : e.path = p
 HasNode(W, p) == \E n \in Nodes(W) : n.path = p
 NodeAt(W, p) == CHOOSE n \in Nodes(W) : n.path = p
 TrackedBelow(W, d) == \E e \in Entries(W) : IsProperPrefix(d, e.path)
+\* Bug_DeletedNotTracked: only index entries whose file still exists make a directory "tracked"
+TrackedBelowB(W, d, bug) == \E e \in Entries(W) : IsProperPrefix(d, e.path) /\ (~bug \/ (\E n \in Nodes(W) : n.path = e.path))
 FilesBelow(W, d) == { n \in Nodes(W) : n.t # "dir" /\ IsProperPrefix(d, n.path) }
 
 \* ---- tracked paths -------------------------------------------------------------------------
@@ -61,12 +63,12 @@ DirsAbove(W, n) == { d \in Prefixes(n.path) : HasNode(W, d) }
 Shallowest(S) == CHOOSE d \in S : \A x \in S : Len(d) <= Len(x)
 
 \* --untracked-files=normal: a directory without tracked content stands for everything in it ...
-UntrackedDir(W, d) == ~NodeAt(W, d).ign /\ ~TrackedBelow(W, d)
+UntrackedDir(W, d, bugDel) == ~NodeAt(W, d).ign /\ ~TrackedBelowB(W, d, bugDel)
 \* ... unless its name is that of an index entry (a tracked file replaced by a directory: wt-status.c
 \* asks index_name_is_other for the name without its trailing slash)
 \* Bug_ShowReplacingDir: it is listed nevertheless
-UntrackedNormal(W, bugShowReplacing) ==
-  LET top(n) == { d \in DirsAbove(W, n) : UntrackedDir(W, d) }
+UntrackedNormal(W, bugShowReplacing, bugDel) ==
+  LET top(n) == { d \in DirsAbove(W, n) : UntrackedDir(W, d, bugDel) }
       files == { [code |-> "?", path |-> n.path, dir |-> FALSE] : n \in { x \in Untracked(W) : top(x) = {} } }
       dirs == { [code |-> "?", path |-> Shallowest(top(n)), dir |-> TRUE] : n \in { x \in Untracked(W) : top(x) # {} } }
   IN files \cup { r \in dirs : bugShowReplacing \/ ~HasEntry(W, r.path) }
@@ -76,10 +78,10 @@ UntrackedAll(W) == { [code |-> "?", path |-> n.path, dir |-> FALSE] : n \in Untr
 \* itself or in which every file is ignored stands for its content; other ignored files are listed
 \* one by one, also below a directory that is itself listed as untracked
 \* Bug_HideIgnoredInUntrackedDir: ignored files below a listed untracked directory are not reported
-IgnoredDir(W, d) == ~TrackedBelow(W, d) /\ (NodeAt(W, d).ign \/ \A f \in FilesBelow(W, d) : f.ign)
-IgnoredNormal(W, bugHide, bugShowReplacing) ==
-  LET top(n) == { d \in DirsAbove(W, n) : IgnoredDir(W, d) }
-      utop(n) == { d \in DirsAbove(W, n) : UntrackedDir(W, d) /\ \E f \in FilesBelow(W, d) : ~f.ign }
+IgnoredDir(W, d, bugDel) == ~TrackedBelowB(W, d, bugDel) /\ (NodeAt(W, d).ign \/ \A f \in FilesBelow(W, d) : f.ign)
+IgnoredNormal(W, bugHide, bugShowReplacing, bugDel) ==
+  LET top(n) == { d \in DirsAbove(W, n) : IgnoredDir(W, d, bugDel) }
+      utop(n) == { d \in DirsAbove(W, n) : UntrackedDir(W, d, bugDel) /\ \E f \in FilesBelow(W, d) : ~f.ign }
       files == { [code |-> "!", path |-> n.path, dir |-> FALSE] : n \in { x \in Ignored(W) : top(x) = {} /\ (~bugHide \/ utop(x) = {}) } }
       dirs == { [code |-> "!", path |-> Shallowest(top(n)), dir |-> TRUE] : n \in { x \in Ignored(W) : top(x) # {} } }
   IN files \cup { r \in dirs : bugShowReplacing \/ ~HasEntry(W, r.path) }      \* (the replaced-file rule applies here too)
@@ -92,10 +94,10 @@ IgnoredAll(W, bugKeepDirs) ==
           \cup { [code |-> "!", path |-> Shallowest(top(n)), dir |-> TRUE] : n \in { x \in Ignored(W) : top(x) # {} } }
      ELSE { [code |-> "!", path |-> n.path, dir |-> FALSE] : n \in Ignored(W) }
 
-NoBugs == [noracy |-> FALSE, showreplacing |-> FALSE, hideignored |-> FALSE, keepdirs |-> FALSE]
+NoBugs == [noracy |-> FALSE, showreplacing |-> FALSE, hideignored |-> FALSE, keepdirs |-> FALSE, deleted |-> FALSE]
 \* the report for a query [untracked : "no" | "normal" | "all", ignored : BOOLEAN]
 Report(W, q, b) ==
   Changes(W, b.noracy)
-  \cup (IF q.untracked = "normal" THEN UntrackedNormal(W, b.showreplacing) ELSE IF q.untracked = "all" THEN UntrackedAll(W) ELSE {})
-  \cup (IF ~q.ignored THEN {} ELSE IF q.untracked = "all" THEN IgnoredAll(W, b.keepdirs) ELSE IF q.untracked = "normal" THEN IgnoredNormal(W, b.hideignored, b.showreplacing) ELSE {})
+  \cup (IF q.untracked = "normal" THEN UntrackedNormal(W, b.showreplacing, b.deleted) ELSE IF q.untracked = "all" THEN UntrackedAll(W) ELSE {})
+  \cup (IF ~q.ignored THEN {} ELSE IF q.untracked = "all" THEN IgnoredAll(W, b.keepdirs) ELSE IF q.untracked = "normal" THEN IgnoredNormal(W, b.hideignored, b.showreplacing, b.deleted) ELSE {})
 =============================================================================
